@@ -173,44 +173,36 @@ func (i *Injector) injectSelfMonitor(cfg *config.Config) {
 }
 
 func (i *Injector) marshal(cfg *config.Config) ([]byte, error) {
-	bTokens := make([]string, 0)
-	password := make([]string, 0)
-
-	for _, w := range cfg.RemoteWriteConfigs {
-		if w.HTTPClientConfig.BearerToken != "" {
-			bTokens = append(bTokens, string(w.HTTPClientConfig.BearerToken))
-		}
-
-		if w.HTTPClientConfig.BasicAuth != nil && w.HTTPClientConfig.BasicAuth.Password != "" {
-			password = append(password, string(w.HTTPClientConfig.BasicAuth.Password))
-		}
-
-	}
-
-	for _, w := range cfg.RemoteReadConfigs {
-		if w.HTTPClientConfig.BearerToken != "" {
-			bTokens = append(bTokens, string(w.HTTPClientConfig.BearerToken))
-		}
-
-		if w.HTTPClientConfig.BasicAuth != nil && w.HTTPClientConfig.BasicAuth.Password != "" {
-			password = append(password, string(w.HTTPClientConfig.BasicAuth.Password))
-		}
-	}
-
 	gen, err := yaml.Marshal(&cfg)
 	if err != nil {
 		return nil, errors.Wrapf(err, "marshal config failed")
 	}
 
-	data := string(gen)
-	for _, token := range bTokens {
-		data = strings.Replace(data, "bearer_token: <secret>", fmt.Sprintf("bearer_token: %s", token), 1)
+	// the config library prints every secret as "<secret>": take the sections kvass does not
+	// rewrite (everything but scrape_configs) from the origin config, which has them as written
+	var out, origin yaml.MapSlice
+	if err := yaml.Unmarshal(gen, &out); err != nil {
+		return nil, errors.Wrapf(err, "unmarshal generated config")
+	}
+	if err := yaml.Unmarshal(i.curCfg.RawContent, &origin); err != nil {
+		return nil, errors.Wrapf(err, "unmarshal origin config")
+	}
+	for k, section := range out {
+		if section.Key == "scrape_configs" {
+			continue
+		}
+		for _, o := range origin {
+			if o.Key == section.Key {
+				out[k].Value = o.Value
+			}
+		}
 	}
 
-	for _, pd := range password {
-		data = strings.Replace(data, "password: <secret>", fmt.Sprintf("password: %s", pd), 1)
+	data, err := yaml.Marshal(out)
+	if err != nil {
+		return nil, errors.Wrapf(err, "marshal config failed")
 	}
-	return []byte(data), nil
+	return data, nil
 }
 
 func (i *Injector) inject() (err error) {
